@@ -246,7 +246,7 @@ def _expression(expr):
             a = _expression(a)
             b = _expression(b)
 
-            if isinstance(b, int):
+            if isinstance(b, (int, np.integer)):
                 b = float(b)
 
             return np.prod([a, np.power(b, -1)], axis=0)
